@@ -10,7 +10,8 @@
    and u, nullO (o resolves to null below the root) and the Boolean variable $v used by @skip / @include.
    Non-null rule as the property states it: null stays at the position, one error, no propagation.                      *)
 EXTENDS Naturals, Sequences, FiniteSets, TLC, Json, SequencesExt
-CONSTANT MaxSteps
+CONSTANTS MaxSteps,
+          Template       \* 0: start from the empty document; k > 0: start from the k-th template below and extend it
 \* ---- schema ----
 Kind == [Query |-> "object", Obj |-> "object", Obj2 |-> "object", I |-> "interface", U |-> "union"]
 \* field -> [t |-> named type, list |-> BOOLEAN, nn |-> BOOLEAN]
@@ -32,7 +33,19 @@ FragLib == [FObj |-> [on |-> "Obj", sel |-> <<F("", "a", <<>>), F("ks", "s", <<>
             FI   |-> [on |-> "I",   sel |-> <<F("", "a", <<>>)>>],
             \* fragments with sub-selections: spreading both under one parent merges the sub-selections of `o` per runtime type
             FIo  |-> [on |-> "I",   sel |-> <<F("", "o", <<F("", "a", <<>>)>>)>>],
-            FOo  |-> [on |-> "Obj", sel |-> <<F("", "o", <<F("ks", "s", <<>>), F("", "e", <<>>)>>)>>]]
+            FOo  |-> [on |-> "Obj", sel |-> <<F("", "o", <<F("ks", "s", <<>>), F("", "e", <<>>)>>)>>],
+            \* same first sub-selection and same number of merged selections as FIo + FOo, for the other concrete type
+            FO2o |-> [on |-> "Obj2", sel |-> <<F("", "o", <<F("", "e", <<>>), F("ka", "a", <<>>)>>)>>]]
+Sp(f) == [k |-> "spread", alias |-> "", name |-> f, dir |-> "none", sel |-> <<>>]
+In(on, sel) == [k |-> "inline", alias |-> "", name |-> on, dir |-> "none", sel |-> sel]
+\* templates: documents too large to be reached by <= MaxSteps build actions, extended by the actions like any other prefix.
+\* They put one field node under several runtime types of a mixed list with per-type merged sub-selections.
+Templates == <<
+  << F("", "is", <<Sp("FIo"), Sp("FOo"), Sp("FO2o")>>) >>,
+  << F("", "is", <<F("", "o", <<F("", "a", <<>>)>>), In("Obj", <<F("", "o", <<F("ks", "s", <<>>)>>)>>), In("Obj2", <<F("", "o", <<F("", "e", <<>>)>>)>>)>>) >>,
+  << F("", "u", <<In("Obj", <<F("", "o", <<F("", "a", <<>>)>>)>>), In("Obj2", <<F("", "o", <<F("", "e", <<>>)>>), F("", "n", <<>>)>>), In("I", <<F("", "o", <<F("ks", "s", <<>>)>>)>>)>>),
+     F("", "i", <<Sp("FIo"), Sp("FO2o"), Sp("FOo")>>) >>,
+  << F("", "os", <<F("", "o", <<F("", "a", <<>>)>>), F("", "o", <<F("ks", "s", <<>>)>>)>>), F("", "o", <<F("", "o", <<F("", "a", <<>>)>>), Sp("FOo")>>) >> >>
 Dirs == {"none", "skipT", "skipF", "inclF", "skipV", "inclV"}
 \* ---- world: resolver behaviour per (type, field) and concrete types of abstract fields ----
 VARIABLES stack, ctx, steps, done, world
@@ -44,7 +57,7 @@ Worlds == {W(FALSE, FALSE, "Obj", "Obj2", FALSE, TRUE), W(TRUE, TRUE, "Obj2", "O
            W(FALSE, TRUE, "Obj", "Obj", TRUE, FALSE), W(TRUE, FALSE, "Obj2", "Obj2", FALSE, TRUE)}
 Skipped(d) == d \in {"skipT", "inclF"} \/ (d = "skipV" /\ world.v) \/ (d = "inclV" /\ ~world.v)
 AllPairs == TRUE
-Init == stack = << <<>> >> /\ ctx = <<[k |-> "root", t |-> "Query", alias |-> "", name |-> "", dir |-> "none", on |-> ""]>> /\ steps = 0 /\ done = FALSE /\ world \in Worlds
+Init == stack = << IF Template = 0 THEN <<>> ELSE Templates[Template] >> /\ ctx = <<[k |-> "root", t |-> "Query", alias |-> "", name |-> "", dir |-> "none", on |-> ""]>> /\ steps = 0 /\ done = FALSE /\ world \in Worlds
 CurT == ctx[Len(ctx)].t
 AliasOf(al, f) == IF al = "" THEN "" ELSE (IF f = "__typename" THEN "ktn" ELSE "k" \o f)
 Push(s) == [stack EXCEPT ![Len(stack)] = Append(@, s)]
